@@ -174,6 +174,23 @@ func (w *World) addContractFile(c *ContractFile) {
 	for _, fc := range c.Funcs {
 		key := fc.Key
 		full := w.fullFuncName(c.PkgPath, key)
+		if prev, dup := w.contracts[full]; dup && prev != fc {
+			// a function may have clauses in several contract files of its
+			// package (one file per topic): they add up. A contract written in
+			// the function's own package wins over a summary some other
+			// package's file declares for it (which is then ignored).
+			prevOwn := strings.Contains(full, prev.PkgPath+".")
+			newOwn := strings.Contains(full, c.PkgPath+".")
+			switch {
+			case prevOwn && !newOwn:
+				continue
+			case !prevOwn && newOwn:
+				w.contracts[full] = fc
+				continue
+			}
+			mergeContracts(prev, fc)
+			continue
+		}
 		w.contracts[full] = fc
 	}
 	for _, sf := range c.Specs {
@@ -184,6 +201,61 @@ func (w *World) addContractFile(c *ContractFile) {
 	}
 	for _, g := range c.Ghosts {
 		w.ghosts[g.Name] = g
+	}
+}
+
+func mergeContracts(dst, src *FuncContract) {
+	dst.Requires = append(dst.Requires, src.Requires...)
+	dst.Ensures = append(dst.Ensures, src.Ensures...)
+	dst.Crash = append(dst.Crash, src.Crash...)
+	dst.Reach = append(dst.Reach, src.Reach...)
+	dst.Sends = append(dst.Sends, src.Sends...)
+	dst.Effects = append(dst.Effects, src.Effects...)
+	dst.NPTags = append(dst.NPTags, src.NPTags...)
+	for k, v := range src.Inv {
+		if dst.Inv == nil {
+			dst.Inv = map[int][]*Clause{}
+		}
+		dst.Inv[k] = append(dst.Inv[k], v...)
+	}
+	for k, v := range src.Dec {
+		if dst.Dec == nil {
+			dst.Dec = map[int]*Clause{}
+		}
+		dst.Dec[k] = v
+	}
+	for k, v := range src.Calls {
+		if dst.Calls == nil {
+			dst.Calls = map[string]string{}
+		}
+		dst.Calls[k] = v
+	}
+	for k, v := range src.Unroll {
+		if dst.Unroll == nil {
+			dst.Unroll = map[int]int{}
+		}
+		dst.Unroll[k] = v
+	}
+	for _, a := range src.Assigns {
+		dup := false
+		for _, b := range dst.Assigns {
+			if a == b {
+				dup = true
+			}
+		}
+		if !dup {
+			dst.Assigns = append(dst.Assigns, a)
+		}
+	}
+	dst.HasAssigns = dst.HasAssigns || src.HasAssigns
+	dst.NoPanic = dst.NoPanic || src.NoPanic
+	dst.Pure = dst.Pure || src.Pure
+	dst.Trusted = dst.Trusted || src.Trusted
+	dst.Inline = dst.Inline || src.Inline
+	dst.Opaque = dst.Opaque || src.Opaque
+	dst.Sticky = dst.Sticky || src.Sticky
+	if len(dst.Results) == 0 {
+		dst.Results = src.Results
 	}
 }
 
